@@ -62,10 +62,10 @@ def run(c, facts, tier):
     cats = voc["category_labels"]  # test/action/global -> label string
     # the strings SyntaxContext::new matches on
     newfn = facts.fn("SyntaxContext::new")
-    matched = sorted({n["rhs"]["v"] for n in find_all(newfn.body, lambda n: n.get("k") == "binary" and n["op"] == "==" and n["rhs"].get("k") == "lit" and n["rhs"].get("t") == "str")})
+    matched = matched_labels(newfn, facts, sorted(cats.values()))
     c.ob("C18.label", newfn.key, "category labels matched by the error folder", matched == sorted(cats.values()), "SyntaxContext::new matches on %s; the grammar's category labels are %s" % (matched, sorted(cats.values())))
     # fold semantics: for each category: `Label(s) if *s == CAT => field = Some("")` followed by `Label(s) if expecting_<field>() => field = Some(s)`
-    fold_ok = fold_semantics(newfn, facts)
+    fold_ok = fold_semantics(newfn, facts, cats)
     c.ob("C18.label", newfn.key, "the label following a category label becomes that category's keyword", not fold_ok, "; ".join(fold_ok) or "for test/action/global: category label resets the field to \"\", the next label fills it")
     narg = 0
     for a in alts:
@@ -302,141 +302,34 @@ def hard_errors_after_consumption(g, ir, consumed=False, depth=0, seen=None):
     return out
 
 
-class _NoEval(Exception):
-    pass
+def matched_labels(newfn, facts, voc_labels):
+    """The label strings the folder reacts to when nothing is awaited: candidates are every string constant of the module
+    and the grammar's category labels; decided by evaluating the folder on the one-entry list [Label(c)]."""
+    from .. import probe as P
+
+    cands = set(voc_labels)
+    for fn in facts.fns.values():
+        if tuple(fn.module) == tuple(newfn.module) and not fn.test:
+            cands |= {n["v"] for n in find_all(fn.body, lambda n: n.get("k") == "lit" and n.get("t") == "str")}
+    for k_, it in facts.consts.items():
+        e = it.get("e")
+        if tuple(k_.split("::")[:len(newfn.module)]) == tuple(newfn.module) and e and e.get("k") == "lit" and e.get("t") == "str":
+            cands.add(e["v"])
+    selfty = F.norm_ty(newfn.impl["self_ty"]) if newfn.impl is not None else "SyntaxContext"
+    pr = P.Probe(facts, selfty, newfn.module)
+    out = []
+    for c_ in sorted(cands):
+        try:
+            base = pr.invoke(newfn, None, [[]])
+            got = pr.invoke(newfn, None, [[("enum", "StrContext::Label", [c_])]])
+        except P.NoEval:
+            return ["<not evaluated>"]
+        if got != base:
+            out.append(c_)
+    return out
 
 
-def _opt_eval(e, env, facts, selfty, depth=0):
-    """Evaluate a boolean / Option<String> / string expression over concrete probe values. env: name -> value, where a value
-    is None | ("some", str) for options, a str for strings, a bool; fields of the accumulator are looked up as 'acc.<f>'."""
-    if depth > 8:
-        raise _NoEval("depth")
-    e = rx.peel(e)
-    k = e["k"]
-    ev = lambda x: _opt_eval(x, env, facts, selfty, depth + 1)
-    if k == "paren":
-        return ev(e["e"])
-    if k == "lit":
-        if e.get("t") in ("str", "bool"):
-            return e["v"]
-        raise _NoEval("literal")
-    if k == "path":
-        nm = "::".join(e["segs"])
-        if nm in env:
-            return env[nm]
-        if nm == "None":
-            return None
-        raise _NoEval("name %s" % nm)
-    if k == "field":
-        base = rx.peel(e["e"])
-        if base.get("k") == "path" and len(base["segs"]) == 1:
-            key = "%s.%s" % (base["segs"][0], e["name"])
-            if key in env:
-                return env[key]
-        raise _NoEval("field %s" % src(e))
-    if k == "unary" and e["op"] == "!":
-        return not ev(e["e"])
-    if k == "binary":
-        if e["op"] == "&&":
-            return ev(e["lhs"]) and ev(e["rhs"])
-        if e["op"] == "||":
-            return ev(e["lhs"]) or ev(e["rhs"])
-        if e["op"] in ("==", "!="):
-            r = ev(e["lhs"]) == ev(e["rhs"])
-            return r if e["op"] == "==" else not r
-        raise _NoEval("operator")
-    if k == "call" and e["f"]["k"] == "path":
-        segs = e["f"]["segs"]
-        if segs == ["Some"] and len(e["args"]) == 1:
-            return ("some", ev(e["args"][0]))
-        if segs[-2:] in (["String", "new"], ["String", "default"]) and not e["args"]:
-            return ""
-        if segs[-2:] == ["String", "from"] and len(e["args"]) == 1:
-            return ev(e["args"][0])
-        # associated function of the same type: inline
-        if len(segs) == 2 and segs[0] in ("Self", selfty):
-            fn = facts.fns.get("%s::%s" % (selfty, segs[1]))
-            if fn is not None and fn.node.get("self") is None and len(fn.params) == len(e["args"]):
-                env2 = {n_: ev(a) for (n_, _), a in zip(fn.params, e["args"])}
-                t = rx.tail_expr(fn.body)
-                if t is not None and len(fn.body["stmts"]) == 1:
-                    return _opt_eval(t, env2, facts, selfty, depth + 1)
-        raise _NoEval("call %s" % src(e)[:40])
-    if k == "mcall":
-        m = e["m"]
-        recv = rx.peel(e["recv"])
-        # method of the accumulator's own type: inline with self := receiver's fields
-        if recv.get("k") == "path" and len(recv["segs"]) == 1 and ("%s::%s" % (selfty, m)) in facts.fns and not any(recv["segs"][0] == n_ for n_ in env):
-            fn = facts.fns["%s::%s" % (selfty, m)]
-            t = rx.tail_expr(fn.body)
-            if t is not None and len(fn.body["stmts"]) == 1 and fn.node.get("self") is not None:
-                env2 = {("self." + k_.split(".", 1)[1]): v for k_, v in env.items() if k_.startswith(recv["segs"][0] + ".")}
-                for (n_, _), a in zip([p_ for p_ in fn.params if p_[0] != "self"], e["args"]):
-                    env2[n_] = ev(a)
-                return _opt_eval(t, env2, facts, selfty, depth + 1)
-        v = ev(e["recv"])
-        if m in ("as_ref", "as_deref", "as_str", "clone", "to_owned", "to_string", "as_mut", "borrow") and not e["args"]:
-            return v
-        if m == "is_empty" and isinstance(v, str):
-            return v == ""
-        if m == "is_some":
-            return v is not None
-        if m == "is_none":
-            return v is None
-        if m in ("is_some_and", "map_or", "is_none_or") and e["args"]:
-            clo = e["args"][-1]
-            if clo["k"] != "closure" or len(clo["params"]) != 1:
-                raise _NoEval("closure")
-            if v is None:
-                return {"is_some_and": False, "is_none_or": True}.get(m) if m != "map_or" else ev(e["args"][0])
-            pn = rx.closure_params(clo)[0].get("name")
-            return _opt_eval(clo["body"], dict(env, **{pn: v[1]}), facts, selfty, depth + 1)
-        if m == "unwrap_or_default" and v is None:
-            return ""
-        raise _NoEval("method %s" % m)
-    if k == "macro" and e["name"] == "matches":
-        v = ev(e["e"])
-        return _pat_match(e["pat"], v, env, facts, selfty, e.get("guard"), depth)
-    raise _NoEval(k)
-
-
-def _pat_match(p, v, env, facts, selfty, guard, depth):
-    while p["k"] in ("ref", "typed"):
-        p = p["pat"]
-    if p["k"] == "or":
-        return any(_pat_match(c_, v, env, facts, selfty, guard, depth) for c_ in p["cases"])
-    if p["k"] == "wild":
-        ok, bind = True, {}
-    elif p["k"] == "ident" and p["name"] == "None":
-        ok, bind = v is None, {}
-    elif p["k"] == "path" and p["segs"] == ["None"]:
-        ok, bind = v is None, {}
-    elif p["k"] == "ident":
-        ok, bind = True, {p["name"]: v}
-    elif p["k"] == "tstruct" and p["segs"] == ["Some"] and len(p["elems"]) == 1:
-        if v is None:
-            return False
-        q = p["elems"][0]
-        while q["k"] in ("ref", "typed"):
-            q = q["pat"]
-        if q["k"] == "lit":
-            ok, bind = v[1] == q["v"], {}
-        elif q["k"] == "ident":
-            ok, bind = True, {q["name"]: v[1]}
-        elif q["k"] == "wild":
-            ok, bind = True, {}
-        else:
-            raise _NoEval("pattern")
-    elif p["k"] == "lit":
-        ok, bind = v == p["v"], {}
-    else:
-        raise _NoEval("pattern %s" % p["k"])
-    if ok and guard is not None:
-        return bool(_opt_eval(guard, dict(env, **bind), facts, selfty, depth + 1))
-    return ok
-
-
-def fold_semantics(newfn, facts):
+def fold_semantics(newfn, facts, cats=None):
     """The accumulator is updated once per context entry, in order; per category: `Label(s) if s == CAT` resets the field to
     Some(""), and `Label(s) if <field is Some("")>` fills it with s.  Guards are *evaluated* (helper methods inlined) on the
     probe states None / Some("") / Some("x"), so any spelling of "the field awaits its name" is recognised."""
@@ -472,58 +365,71 @@ def fold_semantics(newfn, facts):
             probs.append("the function does not return the accumulator")
     else:
         probs.append("expected exactly one traversal (fold or for) of the context list, found %d" % (len(folds) + len(fors)))
-    ms = find_all(newfn.body, lambda n: n.get("k") == "match")
-    if not ms:
-        return probs + ["no match in %s" % newfn.key]
-    mt = ms[0]
-    if elem is not None and not rx.is_var(mt["scrut"], elem):
-        probs.append("the match is not on the visited entry")
-    arms = mt["arms"]
+    if probs:
+        return probs
+    # the step function (one context entry applied to the accumulator), evaluated on one representative of every class of
+    # (accumulator, entry): fields None / awaiting (Some("")) / filled, entry = each category label / another label /
+    # a description / another expectation — whatever way the step is written (vlib/probe.py)
+    from .. import probe as P
+
+    pr = P.Probe(facts, selfty, newfn.module)
     flds = ("test", "action", "global")
-    seq = []
-    for arm in arms:
-        gd = arm["guard"]
-        if gd is None:
-            continue
-        labvar = (rx.pat_bindings(arm["pat"]) or [None])[0]
-        body = rx.peel(arm["body"])
-        fld = body["lhs"]["name"] if body["k"] == "assign" and body["lhs"]["k"] == "field" and rx.is_var(body["lhs"]["e"], accname) else None
-        # what does the guard test?  (a) the label equals a constant   (b) a field is Some("")
-        kind = None
-        try:
-            hits = [cat for cat in ("test", "action", "global_option", "zzz") if _opt_eval(gd, dict({"%s.%s" % (accname, f_): None for f_ in flds}, **{labvar: cat}), facts, selfty) is True]
-            if len(hits) == 1 and hits[0] != "zzz":
-                kind = ("label", hits[0])
-        except _NoEval:
-            pass
-        if kind is None:
-            for f_ in flds:
-                try:
-                    tt = []
-                    for val in (None, ("some", ""), ("some", "x")):
-                        env = {"%s.%s" % (accname, g_): (val if g_ == f_ else None) for g_ in flds}
-                        env[labvar] = "zzz"
-                        tt.append(_opt_eval(gd, env, facts, selfty))
-                    if tt == [False, True, False]:
-                        kind = ("awaits", f_)
-                        break
-                except _NoEval:
-                    continue
-        rhsv = None
-        if body["k"] == "assign":
-            try:
-                rhsv = _opt_eval(body["rhs"], {labvar: "LBL"}, facts, selfty)
-            except _NoEval:
-                rhsv = "?"
-        seq.append((kind, fld, rhsv))
-    for cat, fld in (("test", "test"), ("action", "action"), ("global_option", "global")):
-        i = next((k_ for k_, s_ in enumerate(seq) if s_[0] == ("label", cat)), None)
-        if i is None:
-            probs.append("no arm for label %r" % cat)
-            continue
-        if seq[i][1] != fld or seq[i][2] != ("some", ""):
-            probs.append("label %r sets %s = %s" % (cat, seq[i][1], seq[i][2]))
-        j = next((k_ for k_, s_ in enumerate(seq) if s_[0] == ("awaits", fld)), None)
-        if j is None or seq[j][1] != fld or seq[j][2] != ("some", "LBL"):
-            probs.append("no arm filling %s from the next label (an arm guarded by '%s is Some(\"\")' assigning Some(label))" % (fld, fld))
+    cats = cats or {"test": "test", "action": "action", "global": "global_option"}
+    sd = facts.structs.get(selfty)
+    if sd is None or not all(any(fl["name"] == f_ for fl in sd["fields"]) for f_ in flds + ("description",)):
+        return ["%s does not have the fields test/action/global/description" % selfty]
+
+    def step(state, entry):
+        st = dict(state, __ty=selfty)
+        if folds:
+            out = pr.apply(pr.ev(folds[0]["args"][1], {}), [st, entry])
+        else:
+            env = {accname: st}
+            pre = []
+            for s_ in rx.stmts_of(newfn.body):
+                if s_["k"] == "let" and s_["pat"].get("k") == "ident" and s_["pat"]["name"] != accname and s_.get("init") is not None:
+                    try:
+                        env[s_["pat"]["name"]] = pr.ev(s_["init"], env)
+                    except P.NoEval:
+                        pass
+            b = pr.pmatch(fors[0]["pat"], entry, env)
+            pr.block(fors[0]["body"], P.dict_view(env, b))
+            out = env[accname]
+        if not isinstance(out, dict):
+            raise P.NoEval("the step does not yield the accumulator")
+        return {k_: v for k_, v in out.items() if k_ != "__ty"}
+
+    lab = lambda s_: ("enum", "StrContext::Label", [s_])
+    vals = (None, ("some", ""), ("some", "-old"))
+    entries = [(lab(c_), "label %r" % c_) for c_ in cats.values()] + [(lab("-zzz"), "another label"), (("enum", "StrContext::Expected", [("enum", "StrContextValue::Description", ["why"])]), "a description"), (("enum", "StrContext::Expected", [("enum", "StrContextValue::StringLiteral", ["lit"])]), "another expectation")]
+    show = lambda v: "None" if v is None else "Some(%r)" % v[1]
+    n = 0
+    try:
+        for tv, av, gv, dv in itertools.product(vals, vals, vals, (None, ("some", "old"))):
+            state = {"test": tv, "action": av, "global": gv, "description": dv}
+            awaiting = [f_ for f_ in flds if state[f_] == ("some", "")]
+            if len(awaiting) > 1:
+                continue  # unreachable: a category label is directly followed by its keyword label (the per-keyword obligations)
+            for entry, what in entries:
+                want = dict(state)
+                if awaiting:
+                    if what != "another label":
+                        continue  # unreachable for the same reason
+                    want[awaiting[0]] = ("some", "-zzz")
+                elif what.startswith("label "):
+                    f_ = next(f for f, c_ in cats.items() if entry[2][0] == c_)
+                    want[f_] = ("some", "")
+                elif what == "a description":
+                    want["description"] = ("some", "why")
+                got = step(state, entry)
+                n += 1
+                if got != want:
+                    d = ["%s: %s, expected %s" % (k_, show(got.get(k_)), show(want[k_])) for k_ in want if got.get(k_) != want[k_]]
+                    probs.append("with %s, %s gives %s" % (", ".join("%s=%s" % (k_, show(v)) for k_, v in state.items()), what, "; ".join(d)))
+                    if len(probs) >= 3:
+                        return probs
+    except P.NoEval as ex:
+        return ["the step of the error folder is outside the evaluated subset: %s" % ex]
+    if n < 100:
+        probs.append("only %d (state, entry) classes evaluated" % n)
     return probs
